@@ -142,6 +142,10 @@ fn enumerate_cases(file: &[u8], parsed: &Parsed, seed: u64, cap: usize, clean_ca
 				for k in [&kinds[0], &kinds[1 + (bi % 4)]] {
 					cases.push(Case { fault: Fault::Count { block: bi, new }, reader: k.clone() });
 				}
+				// the iterator adaptors too (what they promise through size_hint() must not come from a damaged count)
+				if new > c + 1 {
+					cases.push(Case { fault: Fault::Count { block: bi, new }, reader: if bi % 2 == 0 { RKind::BufReaderIter } else { RKind::SliceIter } });
+				}
 			}
 		}
 		// (Z) size rewritten
@@ -243,6 +247,12 @@ fn region_of(parsed: &Parsed, off: usize) -> &'static str {
 fn universal(r: &ReadRun, what: &str, counts_genuine: bool, out: &mut Outcome) -> bool {
 	if let Some(p) = &r.panicked {
 		out.fail(format!("C17:panic:{}", panic_site(p)), format!("{what}: {p}"));
+		return false;
+	}
+	if let Some(l) = &r.size_hint_lie {
+		// `collect::<Vec<_>>()` / `extend` reserve the lower bound before pulling the items: a bound taken from a
+		// damaged count is a capacity-overflow panic or an allocation failure waiting for its caller
+		out.fail("C17:iterator-size-hint-exceeds-what-follows", format!("{what}: {l}"));
 		return false;
 	}
 	if r.call_budget_exhausted {
